@@ -827,7 +827,16 @@ def sf_streq(eng, e, st):
     return Val.of_bool(a.get_str() == b.get_str())
 
 
+def sf_count_true(eng, e, st):
+    v = eng.ev(e.args[0], st)
+    a = v.get_arr()
+    if a is None or a.dtype != "bool":
+        raise Undecided("count_true() needs a boolean array")
+    return Val.of_num(N(npmodel.count_true(a)))
+
+
 SPECFUNCS = {
+    "count_true": sf_count_true,
     "old": sf_old, "implies": sf_implies, "iff": sf_iff, "forall": sf_forall, "exists": sf_exists, "rows": sf_rows,
     "cols": sf_cols, "ite": sf_ite, "isint": sf_isint, "isnone": sf_isnone, "pw": sf_pw, "ghost": sf_ghost,
     "ghostp": sf_ghostp, "same": sf_same, "truthy": sf_truthy, "isfinite": sf_isfinite, "isnan": sf_isnan, "num": sf_num,
